@@ -1,6 +1,6 @@
 use crate::internal::category::Category;
 use crate::internal::codepage::CodePage;
-use crate::internal::column::Column;
+use crate::internal::column::{Column, ColumnType};
 use crate::internal::expr::Expr;
 use crate::internal::query::{Delete, Insert, Select, Update};
 use crate::internal::stream::{StreamReader, StreamWriter, Streams};
@@ -603,6 +603,31 @@ impl<F: Read + Write + Seek> Package<F> {
                 column_names.insert(name);
             }
         }
+        // Refuse column definitions that the catalog tables cannot represent
+        // (they would otherwise come back altered when the package is
+        // reopened).
+        for column in columns.iter() {
+            if let ColumnType::Str(max_len) = column.coltype() {
+                if max_len > 255 {
+                    invalid_input!(
+                        "Column {:?} has maximum length {}, but the maximum \
+                         length of a string column cannot exceed 255 (use 0 \
+                         for no maximum)",
+                        column.name(),
+                        max_len
+                    );
+                }
+            }
+            if let Some(values) = column.enum_values() {
+                if values.iter().any(|v| v.is_empty() || v.contains(';')) {
+                    invalid_input!(
+                        "Column {:?} has an enum value that is empty or \
+                         contains a semicolon",
+                        column.name()
+                    );
+                }
+            }
+        }
         if self.tables.contains_key(&table_name) {
             already_exists!("Table {:?} already exists", table_name);
         }
@@ -878,7 +903,7 @@ impl<F: Read + Write + Seek> Finish<F> for FinishImpl {
 mod tests {
     use super::{Package, PackageType};
     use crate::internal::codepage::CodePage;
-    use crate::internal::column::Column;
+    use crate::internal::column::{Column, ColumnType};
     use crate::internal::expr::Expr;
     use crate::internal::query::{Insert, Select, Update};
     use crate::internal::value::Value;
